@@ -281,6 +281,15 @@ Section WithRegistry.
     | c :: r => if c =? 46 then rev acc :: split_dot [] r else split_dot (c :: acc) r
     end.
   Definition stoi (s : bytes) : Z := fst (strtol s).
+  (** std::stoi as the 'using' branch uses it since the repair: no digits -> std::invalid_argument, outside int -> std::out_of_range,
+      both caught and turned into the diagnostic *)
+  Definition has_number (s : bytes) : bool :=
+    match (match skip_space s with c :: r => if (c =? 45) || (c =? 43) then r else skip_space s | [] => [] end) with
+    | c :: _ => is_digit c
+    | [] => false
+    end.
+  Definition stoi_opt (s : bytes) : option Z :=
+    if has_number s then let v := stoi s in if (v <? -2147483648) || (v >? 2147483647) then None else Some v else None.
 
   Fixpoint file_ext_loop (st : cstate) (lang : bytes) (es : list bytes) : cstate * list diag :=
     match es with
@@ -321,11 +330,11 @@ Section WithRegistry.
           end
         else if beqb cmd s_file_ext then file_ext_loop st a1 rest2
         else if beqb cmd s_using then
-          match split_dot [] a1 with
-          | [ma; mi] => ({| vals := vals st; kws := kws st; exts := exts st;
-                            compat := stoi ma * 1048576 + stoi mi * 1024; includes := includes st |}, [])
-          | [ma; mi; pa] => ({| vals := vals st; kws := kws st; exts := exts st;
-                                compat := stoi ma * 1048576 + stoi mi * 1024 + stoi pa; includes := includes st |}, [])
+          match map stoi_opt (split_dot [] a1) with
+          | [Some ma; Some mi] => ({| vals := vals st; kws := kws st; exts := exts st;
+                                      compat := ma * 1048576 + mi * 1024; includes := includes st |}, [])
+          | [Some ma; Some mi; Some pa] => ({| vals := vals st; kws := kws st; exts := exts st;
+                                               compat := ma * 1048576 + mi * 1024 + pa; includes := includes st |}, [])
           | _ => (st, [DBadVersion])
           end
         else
